@@ -62,6 +62,7 @@ def pow_forward(a:np.ndarray, n:'int | float'):
     return a ** n
 
 def pow_backward(grad:np.ndarray, a:np.ndarray, n:'int | float'):
+    if n == 0: return np.zeros_like(grad) # a ** 0 is constant; n * a ** (n - 1) would give 0 * inf = nan at a == 0
     return n * (a ** (n - 1)) * grad
 
 
